@@ -151,6 +151,9 @@ type kind struct {
 	Read     bool // response compared with the same request answered by the leader
 	MinDelta int  // commit-index growth on the leader when served
 	MaxDelta int
+	MinCmds  int // raft commands submitted by the leader's Store when served (execute / strong read / unified)
+	MaxCmds  int
+	Loads    int // database loads performed when served
 	Last     bool // run after all others (may leave work behind on a node)
 
 	FollowerOnly bool // meaningless at the leader
@@ -159,15 +162,15 @@ type kind struct {
 var selQ = url.QueryEscape("SELECT COUNT(*), MAX(tok) FROM oplog")
 
 var kinds = []kind{
-	{Name: "execute", Method: "POST", Path: "/db/execute?raft_index", Perms: []string{"execute"}, Write: true, MinDelta: 1, MaxDelta: 1},
-	{Name: "execute-queued", Method: "POST", Path: "/db/execute?queue&wait&timeout=8s", Perms: []string{"execute"}, Write: true, MinDelta: 1, MaxDelta: 1, Last: true},
-	{Name: "query-strong", Method: "GET", Path: "/db/query?level=strong&raft_index&q=" + selQ, Perms: []string{"query"}, Read: true, MinDelta: 1, MaxDelta: 1},
-	{Name: "query-linearizable", Method: "GET", Path: "/db/query?level=linearizable&q=" + selQ, Perms: []string{"query"}, Read: true, MinDelta: 0, MaxDelta: 1},
+	{Name: "execute", Method: "POST", Path: "/db/execute?raft_index", Perms: []string{"execute"}, Write: true, MinDelta: 1, MaxDelta: 1, MinCmds: 1, MaxCmds: 1},
+	{Name: "execute-queued", Method: "POST", Path: "/db/execute?queue&wait&timeout=8s", Perms: []string{"execute"}, Write: true, MinDelta: 1, MaxDelta: 1, Last: true, MinCmds: 1, MaxCmds: 1},
+	{Name: "query-strong", Method: "GET", Path: "/db/query?level=strong&raft_index&q=" + selQ, Perms: []string{"query"}, Read: true, MinDelta: 1, MaxDelta: 1, MinCmds: 1, MaxCmds: 1},
+	{Name: "query-linearizable", Method: "GET", Path: "/db/query?level=linearizable&q=" + selQ, Perms: []string{"query"}, Read: true, MinDelta: 0, MaxDelta: 1, MaxCmds: 1},
 	{Name: "query-weak", Method: "GET", Path: "/db/query?level=weak&q=" + selQ, Perms: []string{"query"}, Read: true},
-	{Name: "request-rw", Method: "POST", Path: "/db/request?raft_index", Perms: []string{"query", "execute"}, Write: true, MinDelta: 1, MaxDelta: 1},
-	{Name: "request-ro-strong", Method: "POST", Path: "/db/request?level=strong", Perms: []string{"query", "execute"}, Read: true, MinDelta: 1, MaxDelta: 1},
-	{Name: "load-sql", Method: "POST", Path: "/db/load", Perms: []string{"load"}, Write: true, MinDelta: 1, MaxDelta: 1},
-	{Name: "load-bin", Method: "POST", Path: "/db/load", Perms: []string{"load"}, Write: true, MinDelta: 1, MaxDelta: 1},
+	{Name: "request-rw", Method: "POST", Path: "/db/request?raft_index", Perms: []string{"query", "execute"}, Write: true, MinDelta: 1, MaxDelta: 1, MinCmds: 1, MaxCmds: 1},
+	{Name: "request-ro-strong", Method: "POST", Path: "/db/request?level=strong", Perms: []string{"query", "execute"}, Read: true, MinDelta: 1, MaxDelta: 1, MinCmds: 1, MaxCmds: 1},
+	{Name: "load-sql", Method: "POST", Path: "/db/load", Perms: []string{"load"}, Write: true, MinDelta: 1, MaxDelta: 1, MinCmds: 1, MaxCmds: 1},
+	{Name: "load-bin", Method: "POST", Path: "/db/load", Perms: []string{"load"}, Write: true, MinDelta: 1, MaxDelta: 1, Loads: 1},
 	{Name: "backup-bin", Method: "GET", Path: "/db/backup", Perms: []string{"backup"}, Read: true},
 	{Name: "backup-sql", Method: "GET", Path: "/db/backup?fmt=sql", Perms: []string{"backup"}, Read: true},
 	{Name: "remove", Method: "DELETE", Path: "/remove", Perms: []string{"remove"}, MinDelta: 1, MaxDelta: 1},
@@ -203,6 +206,8 @@ type obs struct {
 	Token     string    `json:"token,omitempty"`
 	Applied   int       `json:"token_rows_on_leader"`
 	Delta     int64     `json:"leader_commit_index_delta"`
+	Cmds      int64     `json:"leader_commands_submitted"`
+	Loads     int64     `json:"leader_loads"`
 	LeaderAA  []aaCall  `json:"leader_internode_checks,omitempty"`
 	Cut       bool      `json:"connection_cut_after_request_written,omitempty"`
 	Problems  []problem `json:"problems,omitempty"`
@@ -274,6 +279,25 @@ func qInt(n *hcluster.Node, sql string, params ...string) ([]int64, error) {
 		out = append(out, p.GetI())
 	}
 	return out, nil
+}
+
+func storeStat(name string) int64 {
+	m, ok := expvar.Get("store").(*expvar.Map)
+	if !ok {
+		return -1
+	}
+	v, ok := m.Get(name).(*expvar.Int)
+	if !ok {
+		return 0
+	}
+	return v.Value()
+}
+
+// submitted counts the raft commands built by Store.Execute / strong Query / Request in
+// this process; only a leader gets that far, so its growth around a request is
+// the number of times the leader executed it.
+func submitted() int64 {
+	return storeStat("num_uncompressed_commands") + storeStat("num_compressed_commands")
 }
 
 // raftTerm reads the node's current raft term (0 if unavailable).
@@ -724,6 +748,7 @@ func (e *env) doRequest(idx int, phase string, jb job, cut bool) (o obs) {
 		o.Inconcl = "cannot read leader state"
 		return
 	}
+	cmd0, loads0 := submitted(), storeStat("num_loads")
 	mark := e.rec.mark()
 	evs0 := len(cl.Net.Events())
 	if cut {
@@ -734,6 +759,12 @@ func (e *env) doRequest(idx int, phase string, jb job, cut bool) (o obs) {
 		body = []byte{}
 	}
 	r := cl.Do(n, k.Method, path, body, h)
+	for try := 0; try < 3 && k.Read && !cut && r.Err == nil && r.Status == 500; try++ {
+		// reads are repeatable: a failing backup (snapshot in progress, ...) is retried
+		e.cnt("read-retried-after-500", 1)
+		time.Sleep(300 * time.Millisecond)
+		r = cl.Do(n, k.Method, path, body, h)
+	}
 	if cut {
 		for _, ev := range cl.Net.Events()[evs0:] {
 			if ev.Kind == "cut" && ev.Src == n.Name && ev.Dst == ld.Name {
@@ -758,7 +789,7 @@ func (e *env) doRequest(idx int, phase string, jb job, cut bool) (o obs) {
 	if len(o.Body) > 600 && !strings.HasPrefix(k.Name, "backup") {
 		o.Body = o.Body[:600] + "…"
 	}
-	if strings.HasPrefix(k.Name, "backup") {
+	if strings.HasPrefix(k.Name, "backup") && r.Status == 200 {
 		o.Body = fmt.Sprintf("(%d bytes)", len(r.Body))
 	}
 
@@ -791,6 +822,7 @@ func (e *env) doRequest(idx int, phase string, jb job, cut bool) (o obs) {
 	}
 	ci1, _ := ld.Store.CommitIndex()
 	o.Delta = int64(ci1) - int64(ci0)
+	o.Cmds, o.Loads = submitted()-cmd0, storeStat("num_loads")-loads0
 	if o.Token != "" {
 		o.Applied = tokRows(ld, o.Token)
 	}
@@ -819,12 +851,13 @@ func (e *env) doRequest(idx int, phase string, jb job, cut bool) (o obs) {
 			copies := okCalls / len(k.Perms)
 			ci1, _ = ld.Store.CommitIndex()
 			o.Delta = int64(ci1) - int64(ci0)
+			o.Cmds, o.Loads = submitted()-cmd0, storeStat("num_loads")-loads0
 			if o.Token != "" {
 				o.Applied = tokRows(ld, o.Token)
 				if o.Applied >= copies && time.Since(t0) > 300*time.Millisecond {
 					break
 				}
-			} else if o.Delta >= int64(copies*k.MinDelta) && time.Since(t0) > 300*time.Millisecond {
+			} else if o.Cmds >= int64(copies*k.MinCmds) && o.Delta >= o.Cmds && time.Since(t0) > 300*time.Millisecond {
 				break
 			}
 		}
@@ -843,8 +876,8 @@ func (e *env) doRequest(idx int, phase string, jb job, cut bool) (o obs) {
 				}
 				bad("forward-resend-after-lost-response:write-applied-twice", "%s sent to follower %s, forwarded to leader %s; the follower's connection was cut after the request had been written: the inter-node client sent the request again on a new connection and the leader applied it %d times (status %d, inter-node client retries so far %d)", K, n.Name, ld.Name, o.Applied, r.Status, retries)
 			}
-		} else if o.Delta > int64(k.MaxDelta) {
-			bad("forward-resend-after-lost-response:strong-read-executed-twice", "%s sent to follower %s: after the connection was cut behind the written request the read went through the leader's log %d times", K, n.Name, o.Delta)
+		} else if o.Cmds > int64(k.MaxCmds) {
+			bad("forward-resend-after-lost-response:strong-read-executed-twice", "%s sent to follower %s: after the connection was cut behind the written request the leader put the read through its log %d times (commit index +%d)", K, n.Name, o.Cmds, o.Delta)
 		}
 		for _, c := range o.LeaderAA {
 			if c.User != jb.pr.User || c.Pass != jb.pr.Pass {
@@ -960,8 +993,24 @@ func (e *env) doRequest(idx int, phase string, jb job, cut bool) (o obs) {
 				e.tokens[o.Token].Outcome = "refused"
 			}
 		}
-		if !served && o.Delta != 0 && !isStep {
-			bad(o.Expect+":"+K+":log-grew", "leader commit index grew by %d", o.Delta)
+		if !served && (o.Cmds != 0 || o.Loads != 0) {
+			bad(o.Expect+":"+K+":executed-on-leader", "the leader's Store built %d raft command(s) and performed %d load(s) for a request answered %d", o.Cmds, o.Loads, r.Status)
+		} else if !served && o.Delta != 0 && !isStep {
+			// The log grew although no command was submitted. For a request whose effect is
+			// not a command (remove) send it once more: an effect repeats, an entry raft
+			// appended on its own does not.
+			again := int64(0)
+			if K == "remove" {
+				c0, _ := ld.Store.CommitIndex()
+				cl.Do(n, k.Method, path, body, h)
+				c1, _ := ld.Store.CommitIndex()
+				again = int64(c1) - int64(c0)
+			}
+			if again != 0 {
+				bad(o.Expect+":"+K+":log-grew", "leader commit index grew by %d, and by %d again when the refused request was repeated", o.Delta, again)
+			} else {
+				o.Observed = append(o.Observed, "raft-entry-not-caused-by-the-request")
+			}
 		}
 		if isStep && !served && ldAfter != ld {
 			bad(o.Expect+":"+K+":executed", "leadership moved %s -> %s", ld.Name, ldAfter.Name)
@@ -983,7 +1032,13 @@ func (e *env) doRequest(idx int, phase string, jb job, cut bool) (o obs) {
 	} else if o.ServedBy != ld.APIAddr && o.ServedBy != "http://"+ld.APIAddr && o.ServedBy != ld.RaftAddr {
 		bad(o.Expect+":"+K+":served-by", "X-RQLITE-SERVED-BY %q names neither address of the leader (%s, %s)", o.ServedBy, ld.APIAddr, ld.RaftAddr)
 	}
-	if o.Delta < int64(k.MinDelta) || o.Delta > int64(k.MaxDelta) {
+	if o.Cmds < int64(k.MinCmds) || o.Cmds > int64(k.MaxCmds) || o.Loads != int64(k.Loads) {
+		bad(o.Expect+":"+K+":executions", "the leader's Store built %d raft command(s) and performed %d load(s) for this request, expected %d..%d and %d", o.Cmds, o.Loads, k.MinCmds, k.MaxCmds, k.Loads)
+	}
+	if o.Delta > int64(k.MaxDelta) && o.Delta-int64(k.MaxDelta) <= 2 && K != "remove" {
+		// more log entries than commands: raft appended one on its own
+		o.Observed = append(o.Observed, "raft-entry-not-caused-by-the-request")
+	} else if o.Delta < int64(k.MinDelta) || o.Delta > int64(k.MaxDelta) {
 		bad(o.Expect+":"+K+":log-entries", "leader commit index grew by %d, expected %d..%d", o.Delta, k.MinDelta, k.MaxDelta)
 	}
 	nb, m := normBody(r.Body)
@@ -1028,8 +1083,8 @@ func (e *env) doRequest(idx int, phase string, jb job, cut bool) (o obs) {
 				d := json.NewDecoder(bytes.NewReader(r.Body))
 				d.UseNumber()
 				d.Decode(&full)
-				if num(full["raft_index"]) != int64(ci1) {
-					bad(o.Expect+":"+K+":raft-index", "raft_index %v in the response, the leader committed the entry at %d", full["raft_index"], ci1)
+				if ri := num(full["raft_index"]); ri <= int64(ci0) || ri > int64(ci1) {
+					bad(o.Expect+":"+K+":raft-index", "raft_index %v in the response, the leader committed the entry in (%d, %d]", full["raft_index"], ci0, ci1)
 				}
 			}
 		case "execute-queued":
@@ -1078,8 +1133,9 @@ func (e *env) doRequest(idx int, phase string, jb job, cut bool) (o obs) {
 			d := json.NewDecoder(bytes.NewReader(r.Body))
 			d.UseNumber()
 			d.Decode(&full)
-			if jn, ok := full["raft_index"].(json.Number); !ok || jn.String() != fmt.Sprint(ci1) {
-				bad(o.Expect+":"+K+":raft-index", "raft_index %v in the response, the leader committed the read at %d", full["raft_index"], ci1)
+			jn, _ := full["raft_index"].(json.Number)
+			if ri, err := jn.Int64(); err != nil || ri <= int64(ci0) || ri > int64(ci1) {
+				bad(o.Expect+":"+K+":raft-index", "raft_index %v in the response, the leader committed the read in (%d, %d]", full["raft_index"], ci0, ci1)
 			}
 		}
 	}
